@@ -1,6 +1,6 @@
 """C15 - round-robin schedulers give each backlogged class its per-visit allowance (RR, WRR, DRR)."""
 import random
-from harness.mq import gen_case, evaluate, cases_from_replay
+from harness.mq import gen_group, evaluate, cases_from_replay
 from harness.mqoracle import oracle_c15, oracle_c12
 
 ASSUMPTIONS = [
@@ -30,7 +30,7 @@ def prepare(ctx):
 
 
 def gen(rng, n):
-    return [gen_case(rng, i, ['rr', 'wrr', 'drr'][i % 3], backlog=rng.random() < 0.5) for i in range(n)]
+    return [gen_group(rng, i, ['rr', 'wrr', 'drr'][i % 3], backlog=rng.random() < 0.5, share=0.3) for i in range(n)]
 
 
 def run(ctx):
